@@ -28,6 +28,7 @@ package zip
 //@   trusted "recursion over parent directories with a map keyed by folded names; only its frame is used here (it touches nothing but its own map)"
 //@   modifies map.collisionChecker
 //@   allocates
+//@   ensures result == nil || fresh(result)
 //@   props C12 C05 C17
 
 //@ func checkZip$1
@@ -65,9 +66,12 @@ package zip
 //@ # every directory and file that Unzip creates lies in (or is) the target directory, files are created
 //@ # exclusively, and nothing is created before the archive passed checkZip with no error
 //@ func Unzip
-//@   modifies map.collisionChecker, ghost.WRITTEN, []FileError
+//@   modifies map.collisionChecker, ghost.WRITTEN, []FileError, io.LimitedReader.N
 //@   call os.MkdirAll requires [C12] mkdir_confined: arg_path == dir || WITHIN(dir, arg_path)
 //@   call os.OpenFile requires [C12] create_confined: WITHIN(dir, arg_name) && arg_flag == 193
+//@   # nothing pre-existing (a stale file, a symlink leading elsewhere) can sit below the target: it was seen empty
+//@   call os.MkdirAll requires [C12] mkdir_into_empty: NOENTRIES(dir)
+//@   call os.OpenFile requires [C12] create_into_empty: NOENTRIES(dir)
 //@   loop 0:
 //@     invariant 0 - 1 <= @idx && @idx < len(z.File) && z != nil
 //@     invariant prefix == SPR2("%s@%s/", m.Path, m.Version)
@@ -80,9 +84,14 @@ package zip
 //@ # ---------- which files belong in a module zip (C17) and what Create writes (C05) ----------
 //@ iface File.Path(f File) string
 //@   pure
+//@ # the predefined reasons are unexported variables of this package: a File implementation has no way to return them
+//@ spec macro PREDEFINED(e error) bool =
+//@     e == errPathNotClean || e == errPathNotRelative || e == errGoModCase || e == errGoModSize || e == errLICENSESize
+//@     || e == errVCS || e == errVendored || e == errSubmoduleFile || e == errSubmoduleDir || e == errHgArchivalTxt || e == errSymlink || e == errNotRegular
 //@ iface File.Lstat(f File) (info fs.FileInfo, err error)
 //@   allocates
 //@   ensures err == nil ==> info != nil
+//@   ensures !PREDEFINED(err)
 //@ iface File.Open(f File) (rc io.ReadCloser, err error)
 //@   allocates
 //@   ensures err == nil ==> rc != nil
@@ -128,6 +137,10 @@ package zip
 //@   let VERS string = vers @after loop 0
 //@   modifies map.collisionChecker, []FileError, ghost.WRITTEN, "map[string]bool", "map[string]struct{}"
 //@   ensures [C17, C05] valid_names: forall k int :: 0 <= k && k < len(cf.Valid) ==> VALIDNAME(cf.Valid[k], VERS)
+//@   # a file is reported invalid or omitted with one of the predefined reasons only when that documented rule applies to it
+//@   call checkFiles$1 requires [C17] size_rules_apply: (arg_err == errLICENSESize ==> arg_path == "LICENSE" && size > MaxLICENSE && !arg_omitted) && (arg_err == errGoModSize ==> arg_path == "go.mod" && size > MaxGoMod && !arg_omitted)
+//@   call checkFiles$1 requires [C17] name_rules_apply: (arg_err == errGoModCase ==> strings.ToLower(arg_path) == "go.mod" && arg_path != "go.mod" && !arg_omitted) && (arg_err == errPathNotClean ==> path.Clean(arg_path) != arg_path && !arg_omitted) && (arg_err == errPathNotRelative ==> path.IsAbs(arg_path) && !arg_omitted)
+//@   call checkFiles$1 requires [C17] omit_rules_apply: (arg_err == errVendored ==> VENDORED(arg_path, vers) && arg_omitted) && (arg_err == errHgArchivalTxt ==> arg_path == ".hg_archival.txt" && arg_omitted) && (arg_err == errSymlink ==> arg_omitted) && (arg_err == errNotRegular ==> arg_omitted) && (arg_err == errSubmoduleFile ==> arg_omitted)
 //@   ensures [C17, C05] parallel: len(validFiles) == len(cf.Valid) && len(validSizes) == len(cf.Valid) && (forall k int :: 0 <= k && k < len(cf.Valid) ==> validFiles[k] != nil && validFiles[k].Path() == cf.Valid[k])
 //@   ensures [C17, C05] sizes: cf.SizeError == nil ==> (forall k int :: 0 <= k && k < len(validSizes) ==> 0 <= validSizes[k] && validSizes[k] <= MaxZipFile)
 //@   loop 0:
@@ -161,16 +174,18 @@ package zip
 //@ # addFile: the entry is created under the module prefix with a clean valid file path
 //@ func Create$2
 //@   requires f != nil && zw != nil && FILEOKNAME(path) && 0 <= size && size <= MaxZipFile
-//@   modifies ghost.WRITTEN
+//@   modifies ghost.WRITTEN, io.LimitedReader.N
 //@   allocates
 //@   call (*zip.Writer).Create requires [C05] entry_name: arg_name == prefix + path && FILEOKNAME(path)
+//@   # an entry never holds more bytes than the size the file check saw (which was checked against the limits)
+//@   ensures [C05, internal] within_declared_size: result == nil ==> len(WRITTEN[w]) <= size
 //@   props C05
 
 //@ # Create writes only entries "<path>@<version>/<p>" for names p that the file check reported valid, after the
 //@ # version was checked canonical, the path/version pair valid, and the file check reported no error
 //@ func Create
 //@   requires forall i int :: 0 <= i && i < len(files) ==> files[i] != nil
-//@   modifies map.collisionChecker, []FileError, ghost.WRITTEN, "map[string]bool", "map[string]struct{}"
+//@   modifies map.collisionChecker, []FileError, ghost.WRITTEN, "map[string]bool", "map[string]struct{}", io.LimitedReader.N
 //@   ensures [C05] checked_first: err == nil ==> module.CanonicalVersion(m.Version) == m.Version && MODPATHOK(m.Path) && semver.IsValid(m.Version)
 //@   loop 0:
 //@     invariant 0 - 1 <= @idx && @idx < len(validFiles) && zw != nil && prefix == SPR2("%s@%s/", m.Path, m.Version)
